@@ -1046,7 +1046,20 @@ class SymReal(Sym):
         raise EngineLimit('float() of a symbolic real')
 
     def __int__(self):
-        return int(self.__float__())
+        try:
+            return int(self.__float__())
+        except EngineLimit:
+            pass
+        # int() truncates: the solver enumerates every feasible truncated value (needs a bounded value)
+        c = cur()
+        c.assume(self.t_isfinite())
+        return c.concretize(self.to_int('trunc').t)
+
+    def __index__(self):
+        # numpy scalar types (np.intp(x)) accept integer-valued objects through __index__
+        c = cur()
+        c.assume(And_(self.t_isfinite(), self.v == z3.ToReal(z3.ToInt(self.v))))
+        return c.concretize(z3.ToInt(self.v))
 
     def __bool__(self):
         return bool(self != 0)
